@@ -13,7 +13,9 @@ Section Mapping.
 
   Inductive op :=
   | OGet (k : str) | OSet (k : str) (v : V) | ODel (k : str)
-  | OContains (k : str) | OLen | OIter | OToDict.
+  | OContains (k : str) | OLen | OIter | OToDict
+  (* the other ways of writing into a MutableMapping (collections.abc mix-ins over the three primitives) *)
+  | OUpdate (items : list (str * V)) | OSetDefault (k : str) (v : V) | OPop (k : str) | OPopDefault (k : str) (v : V) | OClear.
 
   Inductive obs :=
   | ObsVal (v : V) | ObsKeyError | ObsNone | ObsBool (b : bool) | ObsLen (n : nat)
@@ -32,6 +34,20 @@ Section Mapping.
     | OLen => (d, ObsLen (length d))
     | OIter => (d, ObsKeys (map fst d))
     | OToDict => (d, ObsItems d)
+    | OUpdate items => (fold_left (fun d kv => dict_put (lower (fst kv)) (snd kv) d) items d, ObsNone)
+    | OSetDefault k v => match dict_get (lower k) d with
+                         | Some x => (d, ObsVal x)
+                         | None => (dict_put (lower k) v d, ObsVal v)
+                         end
+    | OPop k => match dict_get (lower k) d with
+                | Some x => (dict_del (lower k) d, ObsVal x)
+                | None => (d, ObsKeyError)
+                end
+    | OPopDefault k v => match dict_get (lower k) d with
+                         | Some x => (dict_del (lower k) d, ObsVal x)
+                         | None => (d, ObsVal v)
+                         end
+    | OClear => ([], ObsNone)
     end.
 
   (* the same operation on a plain dict, the key already lower-cased *)
@@ -47,12 +63,29 @@ Section Mapping.
     | OLen => (d, ObsLen (length d))
     | OIter => (d, ObsKeys (map fst d))
     | OToDict => (d, ObsItems d)
+    | OUpdate items => (fold_left (fun d kv => dict_put (fst kv) (snd kv) d) items d, ObsNone)
+    | OSetDefault k v => match dict_get k d with
+                         | Some x => (d, ObsVal x)
+                         | None => (dict_put k v d, ObsVal v)
+                         end
+    | OPop k => match dict_get k d with
+                | Some x => (dict_del k d, ObsVal x)
+                | None => (d, ObsKeyError)
+                end
+    | OPopDefault k v => match dict_get k d with
+                         | Some x => (dict_del k d, ObsVal x)
+                         | None => (d, ObsVal v)
+                         end
+    | OClear => ([], ObsNone)
     end.
 
   Definition lower_op (o : op) : op :=
     match o with
     | OGet k => OGet (lower k) | OSet k v => OSet (lower k) v | ODel k => ODel (lower k)
-    | OContains k => OContains (lower k) | o => o
+    | OContains k => OContains (lower k)
+    | OUpdate items => OUpdate (map (fun kv => (lower (fst kv), snd kv)) items)
+    | OSetDefault k v => OSetDefault (lower k) v | OPop k => OPop (lower k) | OPopDefault k v => OPopDefault (lower k) v
+    | o => o
     end.
 
   Fixpoint run_ops (step : pydict V -> op -> pydict V * obs) (d : pydict V) (ops : list op) : list obs :=
@@ -68,6 +101,7 @@ End Mapping.
 
 Arguments OGet {V}. Arguments OSet {V}. Arguments ODel {V}. Arguments OContains {V}.
 Arguments OLen {V}. Arguments OIter {V}. Arguments OToDict {V}.
+Arguments OUpdate {V}. Arguments OSetDefault {V}. Arguments OPop {V}. Arguments OPopDefault {V}. Arguments OClear {V}.
 
 (* "k: v" strings: s.partition(': ') *)
 Definition item_of_string (s : str) : str * str :=
